@@ -28,7 +28,8 @@ REQUIRED_STATS = ("queries", "path:cg", "path:direct", "quadrature_identity_chec
 def gen_cases(ctx):
     rng = ctx.rng
     classes = list(zoo.ALL_CLASSES)
-    sizes = [1, 2, 3, 4, 5, 6, 8] if ctx.tier == "quick" else [1, 2, 3, 4, 6, 8, 10, 12, 24, 64]
+    # 10-12: CG runs past its 10-iteration minimum while the quadrature identity is still decidable (n <= 12)
+    sizes = [1, 2, 3, 4, 5, 6, 8, 10, 12, 12] if ctx.tier == "quick" else [1, 2, 3, 4, 6, 8, 10, 11, 12, 12, 24, 64]
     i = ctx.shard
     while True:
         root = classes[i % len(classes)]
